@@ -22,7 +22,7 @@ if _H not in sys.path:
 from oracles import o2_common as oc  # noqa: E402
 from oracles.o2_common import np, Fraction  # noqa: E402
 
-RULE = ("exhaustive: every (N, m), N in 2..5, N*m <= 12 (quick) / 18 (thorough; nesting needs N*(m+1) <= 50), random "
+RULE = ("exhaustive: every (N, m), N in 2..5, N*m <= 12 (quick) / 18 (thorough); exhaustive nesting while N*(m+1) <= 15 (quick) / 18 (thorough), random "
         "box: all consecutive pairs (i, i+1) and all 2^N children of every subinterval; random: (N, m) with N*m <= 50, "
         "random box, pairs i = uniform / k*2^(N*j)-1 / first / last, nesting at random x, Hoelder pairs as described "
         "in the module docstring. A case is one pair (adjacency), one (x, m, m+1) triple (nesting) or one pair "
@@ -195,7 +195,7 @@ def run(tier, r):
             continue
         lo, hi = oc.gen_box(r, n)
         # nesting doubles the cost by 2^N: exhaustive nesting only while the child level stays within the limit + N
-        pairs, nested = _exhaustive(n, m, lo, hi, viol, nest=(n * (m + 1) <= lim + 3))
+        pairs, nested = _exhaustive(n, m, lo, hi, viol, nest=(n * (m + 1) <= (lim + 3 if tier == "quick" else lim)))
         counts["adjacency"] += pairs
         counts["nesting"] += nested
         stats["exhaustive_configs"].append([n, m, pairs, nested])
